@@ -49,6 +49,7 @@ __all__ = [
 # stdlib imports
 import logging
 import datetime
+import hashlib
 import http.cookiejar
 import os
 import tempfile
@@ -486,7 +487,10 @@ class OFXClient:
 
         ofxget.scan_profile() overrides version/prettyprint/close_elements.
         """
-        filename = f"{self.org}-{self.fid}.profrs"
+        # Key the cache by server URL as well as ORG/FID: FIs configured without
+        # ORG/FID (or sharing them) must not read each other's cached profile.
+        urlhash = hashlib.sha256(self.url.encode("utf_8")).hexdigest()[:16]
+        filename = f"{self.org}-{self.fid}-{urlhash}.profrs"
         persistdir = config.DATADIR / "fiprofiles"
         persistpath = persistdir / filename
 
